@@ -478,11 +478,13 @@ func runC13(c *hx.Ctx) *hx.Outcome {
 		o.Fail("C13/no-stop", "Handle did not return (verdict %s, %d steps, simulated %v): tolerance %dms wait %dms interruptions %+v", verdict, s.Steps, s.Elapsed(), tol, wait, ints)
 		return o
 	}
+	// (Which error value Handle returns is not part of the statement - the
+	// pipeline ignores it - so it is only recorded.)
 	if retErr == nil {
-		o.Fail("C13/nil-error", "Handle returned nil after the input stopped")
+		o.Probe("handle-returned-nil-error")
 	}
 	if fatalErr && retErr != nil && retErr != env.ErrFatal {
-		o.Fail("C13/wrong-error", "Handle returned %v, the source reported %v", retErr, env.ErrFatal)
+		o.Probe("handle-returned-a-different-error")
 	}
 	if len(src.Handed) != len(wantData) {
 		if len(src.Handed) < len(wantData) {
